@@ -20,6 +20,7 @@ package basepathfs
 import (
 	"io/fs"
 	"os"
+	"strings"
 	"time"
 
 	"github.com/avfs/avfs"
@@ -189,6 +190,11 @@ func (vfs *BasePathFS) FromSlash(path string) string {
 // Getwd may return any one of them.
 func (vfs *BasePathFS) Getwd() (dir string, err error) {
 	dir, err = vfs.baseFS.Getwd()
+	if !strings.HasPrefix(dir, vfs.basePath) {
+		// the current directory of the base file system is outside the base path
+		// (no Chdir through this file system yet) : the current directory is the root.
+		dir = vfs.basePath
+	}
 
 	return vfs.FromBasePath(dir), vfs.FromPathError(err)
 }
